@@ -126,7 +126,10 @@ class Check:
                            'previously_fixed': fixed.get(key, [None])[0]}, f, indent=1, default=str)
         for key, what in seen_known.items():
             print('KNOWN-FINDING: property=%s %s' % (self.pid, what))
-        for key, (path, rule, subject, what, site) in seen_viol.items():
+        for n_printed, (key, (path, rule, subject, what, site)) in enumerate(seen_viol.items()):
+            if n_printed == 40:
+                print('... and %d more violations (replay files %s/41.json ...)' % (len(seen_viol) - 40, outdir))
+                break
             print('VIOLATION property=%s replay=%s' % (self.pid, path))
             print('  rule %s on %s: %s' % (rule, subject, what or ''))
             if site:
